@@ -173,7 +173,7 @@ def exWb : Workbook :=
     names := [⟨"one".toList, false, .ref ⟨"My Sheet".toList, true, true, ⟨1, 1⟩, true, none⟩⟩,
               ⟨"rng".toList, false, .ref ⟨"My Sheet".toList, true, true, ⟨1, 1⟩, true, some (true, ⟨2, 3⟩, true)⟩⟩] }
 
-/-- D1101: a defined name whose sheet name contains an apostrophe. -/
+/-- regression workbook for D1101 (fixed): a defined name whose sheet name contains an apostrophe. -/
 def aposWb : Workbook :=
   { sst := [],
     sheets := [{ name := "It's".toList, cells := [⟨⟨1, 1⟩, none, .n (.int 8)⟩] }],
